@@ -106,7 +106,8 @@ Inductive op :=
   | RestoreFolder (g : Z)                      (* file_system restore folder g *)
   | FolderRestore (g : Z)                      (* file_system folder g restore  (the node-folder-restore action) *)
   | FolderDeleteFile (g n : Z)                 (* file_system folder g delete n *)
-  | Tick.                                      (* apply_timestep of this tick, then pre_timestep of the next *)
+  | Tick                                       (* apply_timestep of this tick, then pre_timestep of the next *)
+  | TickOff.                                   (* the same while the node is not ON: nothing progresses, the per-tick counters restart *)
 
 Definition step (s : fsys) (o : op) : fsys * status :=
   match o with
@@ -168,6 +169,7 @@ Definition step (s : fsys) (o : op) : fsys * status :=
   | Tick =>
       let s1 := set_folders s (map g_restore_tick (folders s)) (dfolders s) in
       ({| folders := folders s1; dfolders := dfolders s1; next := next s1; ncreate := 0; ndelete := 0 |}, Success)
+  | TickOff => ({| folders := folders s; dfolders := dfolders s; next := next s; ncreate := 0; ndelete := 0 |}, Success)
   end.
 
 Definition init : fsys :=
